@@ -14,6 +14,7 @@ func main() {
 		"arb":      func(f []string) string { return k8s.VerifArb(verifio.KV(f)) },
 		"polst":    func(f []string) string { return k8s.VerifPolicyStatus(verifio.KV(f)) },
 		"eps":      func(f []string) string { return k8s.VerifEps(verifio.KV(f)) },
+		"reseps":   func(f []string) string { return k8s.VerifResEps(verifio.KV(f)) },
 		"refs":     func(f []string) string { return k8s.VerifRefs(verifio.KV(f)) },
 		"crash":    func(f []string) string { return k8s.VerifCrash(verifio.KV(f)) },
 		"lbc":      func(f []string) string { return k8s.VerifLbc(verifio.KV(f)) },
